@@ -1145,6 +1145,12 @@ func extractPathParams(path string, actualPath string) (map[string]string, error
 		actualPathWithoutQuery = actualPath[:idx]
 	}
 
+	return matchPathParams(path, actualPathWithoutQuery)
+}
+
+// matchPathParams binds the parameters of a route path to the segments of a
+// request path that carries no query string.
+func matchPathParams(path string, actualPathWithoutQuery string) (map[string]string, error) {
 	pathParts := strings.Split(strings.Trim(path, "/"), "/")
 	actualParts := strings.Split(strings.Trim(actualPathWithoutQuery, "/"), "/")
 
